@@ -68,7 +68,11 @@ pub fn run_c06(tier: Tier, seed: u64, index: u64, scratch: &Scratch, rec: &mut R
     let depth_max = max_depth(&b.root).min(2);
     let year: i128 = 365 * 86_400;
     // expiry - clock, in nanoseconds
-    let deltas: [(&str, i128); 9] = [
+    let deltas: [(&str, i128); 13] = [
+        ("-2000y", -2000 * year * NS),
+        ("-300y", -300 * year * NS),
+        ("+300y", 300 * year * NS),
+        ("+2000y", 2000 * year * NS),
         ("-10y", -10 * year * NS),
         ("-1d", -86_400 * NS),
         ("-1s", -NS),
@@ -130,7 +134,7 @@ pub fn run_c06(tier: Tier, seed: u64, index: u64, scratch: &Scratch, rec: &mut R
                         if !(-62_135_596_800 + 86_400..253_402_300_799 - 86_400 * 2).contains(&shown) && *d != i128::MAX {
                             continue;
                         }
-                        if e_s < -62_000_000_000 {
+                        if e_s < -62_000_000_000 || e_s > 253_402_300_799 - 2 * 86_400 {
                             continue;
                         }
                         let text = refmodel::render_rfc3339(e_s, *off, frac);
@@ -222,7 +226,32 @@ pub fn run_c08(tier: Tier, seed: u64, index: u64, scratch: &Scratch, rec: &mut R
         (ExitSpec::Code(0), true),
     ];
     let n_insp = base.root.layout.inspect.len();
-    let fileops = if tier == Tier::Quick { 2 } else { 4 };
+    let fileops = if tier == Tier::Quick { 2 } else { 5 };
+    // an extra "stage": the inspection of a delegated level fails while the delegating step has
+    // surplus evidence (another functionary's plain link and a threshold that one link meets)
+    {
+        let mut t = base.clone();
+        let mut done = false;
+        let steps = t.root.layout.steps.clone();
+        for (si, st) in steps.iter().enumerate() {
+            let fs: Vec<usize> = t.root.files.iter().enumerate().filter(|(_, f)| f.name.starts_with(&format!("{}.", st.name))).map(|(i, _)| i).collect();
+            let sub = fs.iter().copied().find(|i| matches!(&t.root.files[*i].body, Body::Layout(l) if !l.layout.inspect.is_empty()));
+            let plain = fs.iter().copied().find(|i| matches!(t.root.files[*i].body, Body::Link(_)));
+            if let (Some(a), Some(_)) = (sub, plain) {
+                if let Body::Layout(inner) = &mut t.root.files[a].body {
+                    inner.layout.inspect[0].actor.exit = ExitSpec::Code(1 + r.below(3) as i32);
+                }
+                t.root.layout.steps[si].threshold = 1;
+                done = true;
+                break;
+            }
+        }
+        if done {
+            t.labels.push("stage=SUB-INSPECTION-FAILS".into());
+            exec_supply("C08", &t, scratch, rec, seed, index);
+            rec.probe("failing inspection inside a delegated level, surplus evidence");
+        }
+    }
     for stage in stages {
         // one concrete failing world per stage (placement drawn from the seed)
         let mut staged = base.clone();
@@ -241,19 +270,30 @@ pub fn run_c08(tier: Tier, seed: u64, index: u64, scratch: &Scratch, rec: &mut R
         }
         for (exit, noutf8) in outcomes {
             for fo in 0..fileops {
-                let fo = (fo + r.idx(4)) % 4;
+                let fo = (fo + r.idx(5)) % 5;
                 let mut t = staged.clone();
                 let which = r.idx(n_insp.max(1));
                 let ops = match fo {
                     0 => vec![],
                     1 => vec![FsOp::Write { path: "sentinel".into(), content: "created by inspection".into() }],
                     2 => vec![FsOp::Append { path: "pre-existing".into(), content: "modified".into() }],
+                    4 => vec![],
                     _ => vec![FsOp::Remove { path: "pre-existing".into() }, FsOp::Write { path: "forbidden".into(), content: "x".into() }],
                 };
                 if fo >= 2 {
                     t.work_files.push(("pre-existing".into(), "original".into()));
                 }
-                set_actor(&mut t, which, exit.clone(), ops, *noutf8);
+                if fo == 4 {
+                    // an inspection that changes nothing, whose rules reject what is there
+                    if let Some(i) = t.root.layout.inspect.get_mut(0) {
+                        if r.chance(1, 2) {
+                            i.exp_mat = vec![vec!["DISALLOW".into(), "pre-existing".into()]];
+                        } else {
+                            i.exp_prod = vec![vec!["DISALLOW".into(), "pre-existing".into()]];
+                        }
+                    }
+                }
+                set_actor(&mut t, if fo == 4 { 0 } else { which }, exit.clone(), ops, *noutf8);
                 t.labels.push(format!("stage={}", stage.map(gen::fname).unwrap_or("none")));
                 t.labels.push(format!("exit={:?}{}", exit, if *noutf8 { "+NOUTF8" } else { "" }));
                 t.labels.push(format!("fileops={fo}"));
